@@ -306,13 +306,15 @@ class PDFContentParser(PSStackParser[Union[PSKeyword, PDFStream]]):
     def get_inline_data(self, pos: int, target: bytes = b"EI") -> Tuple[int, bytes]:
         self.seek(pos)
         i = 0
-        data = b""
+        # (the pieces are joined at the end: `data += c` copies the data read so
+        # far for every byte that looks like the start of the end marker)
+        pieces = []
         while i <= len(target):
             self.fillbuf()
             if i:
                 ci = self.buf[self.charpos]
                 c = bytes((ci,))
-                data += c
+                pieces.append(c)
                 self.charpos += 1
                 if (
                     len(target) <= i
@@ -326,12 +328,13 @@ class PDFContentParser(PSStackParser[Union[PSKeyword, PDFStream]]):
             else:
                 try:
                     j = self.buf.index(target[0], self.charpos)
-                    data += self.buf[self.charpos : j + 1]
+                    pieces.append(self.buf[self.charpos : j + 1])
                     self.charpos = j + 1
                     i = 1
                 except ValueError:
-                    data += self.buf[self.charpos :]
+                    pieces.append(self.buf[self.charpos :])
                     self.charpos = len(self.buf)
+        data = b"".join(pieces)
         data = data[: -(len(target) + 1)]  # strip the last part
         data = re.sub(rb"(\x0d\x0a|[\x0d\x0a])\Z", b"", data)
         return (pos, data)
